@@ -376,8 +376,8 @@ Print Assumptions C12_momentum_block_components.
 
 (* block level (through the contraction): every entry of every Cartesian component of the angular-momentum block of
    the moved shell pair = entry of the original + (t x p) with p the momentum block entries, i.e. L about a
-   displaced origin = L - d x p; PARTIAL: not lifted through the Hermitian assembly of a whole basis
-   (angmom_integral_re) *)
+   displaced origin = L - d x p; PARTIAL here (one shell pair); lifted through the Hermitian assembly to the whole-basis
+   angmom_integral_re, any coordinate types, in Props/C12_assembled.v *)
 Theorem C12_origin_shift_angular_momentum_block_partial :
   forall (F : Type) (K : Fops F),
   is_field K ->
